@@ -1,10 +1,14 @@
 (* Props_C08.v — property C08 (the cluster IPAM stays inside the quotas, converges, and rolls back).
    Proved: the planning arithmetic (getEniOptions + assignEniWithOptions) never asks for more than the
-   per-interface limits leave nor for more interfaces than the flavor allows.  Convergence to a fixed point and
-   the agreement of record and cloud after failures are judged on Reconcile histories only (IpamRun.pass_why,
-   clauses 801-806): no theorem covers the closed loop with the cloud — the level of this property is partial. *)
+   per-interface limits leave nor for more interfaces than the flavor allows.  The last sentence of the property
+   (a fixed point once min <= max and the cloud is healthy) is REFUTED on the closed-loop model of the pool
+   maintenance (IpamLoop: addIP's refill, handleStatus, adjustPool, on a node without pods), which the harness
+   compares round by round with the real Reconcile: two configurations call the cloud in every round, forever
+   (recorded as known findings).  What does hold there: one interface inside the band is left alone.
+   Roll-back and agreement of record and cloud after failures are judged on Reconcile histories only
+   (IpamRun.pass_why, clauses 801-808): the level of this property is partial. *)
 From Coq Require Import ZArith List Bool.
-From TV Require Import IpamModel IpamProofs.
+From TV Require Import IpamModel IpamProofs IpamLoop IpamLoopProofs.
 Import ListNotations.
 Local Open Scope Z_scope.
 
@@ -39,3 +43,29 @@ Example c08_ex :
   let pc := mkPc true false false false 4 4 10 2 0 0 in
   map (fun o => (o_eni o, o_add4 o)) (plan pc [mkOpt false false 5 3 1 0 0 true 0 0 false] 6 0) = [(5, 1); (0, 4)].
 Proof. vm_compute. reflexivity. Qed.
+
+(* ---- the closed loop of the pool maintenance (node without pods, healthy cloud) ------------------------------------ *)
+(* the fixed-point sentence, as the property states it, would be:  forall c st, l_min c <= l_max c -> converges c st.
+   It is false of the model that reproduces the implementation's rounds: *)
+Theorem c08_pool_churn_refuted :
+  exists c st, l_min c <= l_max c /\ l_dual c = false /\ ~ converges c st.
+Proof. exact pool_churn_refuted. Qed.
+Print Assumptions c08_pool_churn_refuted.
+Theorem c08_pool_churn_dual_stack_refuted :
+  exists c st, l_min c <= l_max c /\ l_dual c = true /\ ~ converges c st.
+Proof. exact pool_churn_dual_refuted. Qed.
+Print Assumptions c08_pool_churn_dual_stack_refuted.
+(* the witnesses round by round (replayed on the real Reconcile by the harness in every run) *)
+Example c08_witness_ipv4 :
+  pass w1_cfg w1_a = (w1_b, [(3, 1, 1)]) /\ pass w1_cfg w1_b = (w1_a, [(5, 1, 1)]).
+Proof. split; [exact w1_step_a | exact w1_step_b]. Qed.
+Example c08_witness_dual :
+  pass w2_cfg w2_a = (w2_b, [(4, 2, 2)]) /\ pass w2_cfg w2_b = (w2_b, [(3, 2, 1); (4, 2, 1); (5, 2, 1); (6, 2, 1)]).
+Proof. split; [exact w2_step_a | exact w2_step_b]. Qed.
+
+(* what does hold: all idle addresses on one interface, inside the band: the round makes no call and changes nothing *)
+Theorem c08_one_interface_in_band_is_fixed_partial : forall c next id n,
+  l_dual c = false -> id <> 0 -> l_min c <= n -> n <= l_max c ->
+  pass c (next, [mkLe id n 0 0 0 false]) = ((next, [mkLe id n 0 0 0 false]), []).
+Proof. exact one_interface_in_band_is_fixed. Qed.
+Print Assumptions c08_one_interface_in_band_is_fixed_partial.
